@@ -788,6 +788,16 @@ func Run(c *ev.Ctx) int {
 			run(func() { laneGate(c, id, op, "") })
 		}
 	}
+	for _, first := range []string{"create", "update-secret", "delete"} {
+		for _, second := range []string{"create", "update-secret", "delete"} {
+			id := "G2/" + first + "/" + second
+			if first == second && first != "update-secret" {
+				continue
+			}
+			first, second := first, second
+			run(func() { laneGate2(c, id, first, second) })
+		}
+	}
 	nConc := c.Pick(10, 400)
 	rc := c.Rng("conc")
 	for i := 0; i < nConc; i++ {
